@@ -42,6 +42,8 @@ structure Qst (s : St) : Prop where
   kr : s.keepRunning = false
   sk : s.sock = none
   pg : s.ping = none
+  lp : s.lastPing = 0
+  lq : s.lastPong = 0
 
 /-- what every callback-calling function preserves -/
 structure Mono (s s' : St) : Prop where
@@ -138,6 +140,30 @@ end WS.Lemmas.App
 namespace WS.Lemmas.App
 open WS WS.Model.App
 
+theorem zlp_rawCall (c : Cfg) (s : St) (cb : Cb) (args : List Arg) : ZeroLP s (rawCall c s cb args).1 := by
+  cases ha : c.act cb (s.calls cb) with
+  | ok => rw [rawCall_ok c s cb args ha]; exact zlp_id _ _ rfl rfl rfl
+  | raise => rw [rawCall_raise c s cb args ha]; exact zlp_id _ _ rfl rfl rfl
+  | ki => rw [rawCall_ki c s cb args ha]; exact zlp_id _ _ rfl rfl rfl
+  | close =>
+    rw [rawCall_close c s cb args ha]
+    exact (zlp_id s { s with calls := bump s.calls cb, trace := s.trace ++ [(s.now, .cb cb args)] } rfl rfl rfl).trans
+      (zlp_appClose c _)
+
+theorem zlp_callback (c : Cfg) (s : St) (cb : Cb) (args : List Arg) : ZeroLP s (callback c s cb args).1 := by
+  unfold callback
+  split
+  · exact ZeroLP.refl s
+  · have z1 := zlp_rawCall c s cb args
+    split
+    · rename_i s1 heq; rw [heq] at z1; exact z1
+    · rename_i s1 e hne heq
+      rw [heq] at z1
+      split
+      · exact z1.trans (zlp_rawCall c s1 _ _)
+      · exact z1
+    · exact z1
+
 def onCloseEv (c : Cfg) (a : List Arg) : List (Cb × List Arg) := if c.has .onClose then [(Cb.onClose, a)] else []
 
 abbrev isUser (e : AExn) : Bool := Spec.AppTrace.AExn.isUser e
@@ -169,7 +195,12 @@ theorem teardown_P (c : Cfg) (hco : CloseOk c) (s : St) (frame : Option Bytes) (
   have f0 : Frame s { s with hasDoneTeardown := true } → False ∨ True := fun _ => Or.inr trivial
   have f1 := frame_stopPing { s with hasDoneTeardown := true }
   have p1 := stopPing_ping { s with hasDoneTeardown := true }
-  generalize stopPing { s with hasDoneTeardown := true } = s1 at f1 p1 ⊢
+  have hz1 : (stopPing { s with hasDoneTeardown := true }).ping = none ∧
+      (stopPing { s with hasDoneTeardown := true }).lastPing = 0 ∧
+      (stopPing { s with hasDoneTeardown := true }).lastPong = 0 := by
+    unfold stopPing
+    cases hpp : s.ping <;> simp [hpp, St.emit]
+  generalize stopPing { s with hasDoneTeardown := true } = s1 at f1 p1 hz1 ⊢
   have f2 := frame_wsClose c { s1 with keepRunning := false }
   rcases hw : wsClose c { s1 with keepRunning := false } with ⟨s2, ok⟩
   rw [hw] at f2
@@ -193,13 +224,18 @@ theorem teardown_P (c : Cfg) (hco : CloseOk c) (s : St) (frame : Option Bytes) (
     | ok u =>
       right
       cases u
-      refine ⟨⟨?_, ?_, ?_, ?_⟩, rfl, ?_, ⟨closeArgs c frame, ?_⟩⟩
+      have z1 : s1.ping = none ∧ s1.lastPing = 0 ∧ s1.lastPong = 0 := hz1
+      have z2 := zlp_wsClose c { s1 with keepRunning := false } z1.1 z1.2.1 z1.2.2
+      rw [hw] at z2
+      have z3 := zlp_dropSock s2 z2.1 z2.2.1 z2.2.2
+      have z4 := zlp_callback c (dropSock s2) .onClose (closeArgs c frame) z3.1 z3.2.1 z3.2.2
+      rw [hx] at z4
+      refine ⟨⟨?_, ?_, ?_, z4.1, z4.2.1, z4.2.2⟩, rfl, ?_, ⟨closeArgs c frame, ?_⟩⟩
       · rw [m4.hdt, f3.hdt, f2.hdt]; simp only []; rw [f1.hdt]
       · cases hk : s4.keepRunning with
         | false => rfl
         | true => have := m4.kr hk; rw [f3.kr, f2.kr] at this; simp at this
       · exact m4.sn k3
-      · exact m4.pn (f3.pn (f2.pn (by simpa using p1)))
       · rw [m4.he, f3.he, f2.he]; simp only []; rw [f1.he]
       · rw [c4, f3.cb, f2.cb]
         have : cbs ({ s1 with keepRunning := false } : St) = cbs s1 := rfl
@@ -310,5 +346,635 @@ theorem handleDisconnect_P (c : Cfg) (hco : CloseOk c) (s : St) (e : AExn) (rc :
       cases u
       exact key s2 δ m (by rw [hc, hc1]) hcl (fun heo => by
         rw [(herr heo).1, (hpre heo).2]; simp)
+
+end WS.Lemmas.App
+
+namespace WS.Lemmas.App
+open WS WS.Model.App
+
+/-- `Post` seen from an earlier state that differs only by a low-level step -/
+theorem Post.of_frame {c : Cfg} {s s0 s' : St} {ex : Option AExn} {st es : Prop}
+    (f : Frame s s0) (h : Post c s0 s' ex st es) : Post c s s' ex st es := by
+  obtain ⟨δ, hc, hl, ho⟩ := h
+  exact ⟨δ, by rw [hc, f.cb], fun heo => by rw [← f.he]; exact hl heo, ho⟩
+
+/-- a step that stays before teardown, followed by any outcome -/
+theorem Post.trans_stay {c : Cfg} {s s1 s' : St} {ex : Option AExn} {st es : Prop}
+    (δ1 : List (Cb × List Arg)) (hc1 : cbs s1 = cbs s ++ δ1) (hcl : closesIn δ1 = 0)
+    (hl1 : ErrOk c → s1.hasErrored = (s.hasErrored || errsIn δ1))
+    (h : Post c s1 s' ex st es) : Post c s s' ex st es := by
+  obtain ⟨δ, hc, hl, ho⟩ := h
+  refine ⟨δ1 ++ δ, by rw [hc, hc1, List.append_assoc], ?_, ?_⟩
+  · intro heo
+    obtain ⟨a, b⟩ := hl heo
+    exact ⟨by rw [a, hl1 heo, errsIn_append, Bool.or_assoc], b⟩
+  · rcases ho with ⟨a, b, d⟩ | ⟨q, ⟨δ2, ar, he, hcl2⟩, d⟩
+    · exact Or.inl ⟨a, by rw [closesIn_append, hcl, b], d⟩
+    · exact Or.inr ⟨q, ⟨δ1 ++ δ2, ar, by rw [he, List.append_assoc], by rw [closesIn_append, hcl, hcl2]⟩, d⟩
+
+/-- a callback other than on_close / on_error: no on_close event, no error report -/
+theorem plain_cb_spec (c : Cfg) (s : St) (cb : Cb) (args : List Arg) (h1 : cb ≠ .onClose) (h2 : cb ≠ .onError) :
+    Mono s (callback c s cb args).1 ∧
+    (∃ δ, cbs (callback c s cb args).1 = cbs s ++ δ ∧ closesIn δ = 0 ∧ errsIn δ = false) ∧
+    (ErrOk c → ∀ e, (callback c s cb args).2 = .exc e → e = .ki) := by
+  obtain ⟨m, ⟨rep, hrep, hc, _⟩, he, _⟩ := callback_spec c s cb args
+  refine ⟨m, ⟨_, hc, ?_, ?_⟩, ?_⟩
+  · split
+    · rcases hrep with rfl | ⟨k, rfl⟩ <;> simp [closesIn, h1]
+    · rfl
+  · split
+    · rcases hrep with rfl | ⟨k, rfl⟩ <;> cases cb <;> simp_all [errsIn, isErr, isUser, Spec.AppTrace.AExn.isUser]
+    · rfl
+  · intro heo e hr
+    rcases he e hr with rfl | ⟨k, rfl, ha⟩
+    · rfl
+    · rcases heo.2 k with h | h <;> rw [h] at ha <;> cases ha
+
+/-- Post of a single plain callback followed by returning its result (mapped) -/
+theorem post_plain (c : Cfg) (s : St) (cb : Cb) (args : List Arg) (h1 : cb ≠ .onClose) (h2 : cb ≠ .onError)
+    (hp : s.hasDoneTeardown = false) (st es : Prop) (hes : es) :
+    Post c s (callback c s cb args).1 (callback c s cb args).2.exn? st es := by
+  obtain ⟨m, ⟨δ, hc, hcl, her⟩, hex⟩ := plain_cb_spec c s cb args h1 h2
+  refine ⟨δ, hc, ?_, Or.inl ⟨?_, hcl, hes⟩⟩
+  · intro heo
+    refine ⟨by rw [m.he, her]; simp, ?_⟩
+    intro e he
+    rcases hr : (callback c s cb args).2 with u | e' | _ <;> rw [hr] at he <;> simp [R.exn?] at he
+    subst he
+    rw [hex heo e' hr]; rfl
+  · rw [m.hdt]; exact hp
+
+end WS.Lemmas.App
+
+namespace WS.Lemmas.App
+open WS WS.Model.App
+
+@[simp] theorem asRead_fst (v : Bool) (x : St × R Unit) : (asRead v x).1 = x.1 := by
+  rcases x with ⟨s, r⟩; cases r <;> rfl
+@[simp] theorem asRead_exn (v : Bool) (x : St × R Unit) : (asRead v x).2.exn? = x.2.exn? := by
+  rcases x with ⟨s, r⟩; cases r <;> rfl
+@[simp] theorem asRead_halt (v : Bool) (x : St × R Unit) : (asRead v x).2.isHalt = x.2.isHalt := by
+  rcases x with ⟨s, r⟩; cases r <;> rfl
+theorem asRead_ok (v b : Bool) (x : St × R Unit) : (asRead v x).2 = .ok b ↔ (x.2 = .ok () ∧ b = v) := by
+  rcases x with ⟨s, r⟩
+  cases r with
+  | ok u => cases u; simp [asRead, eq_comm]
+  | exc e => simp [asRead]
+  | halt => simp [asRead]
+
+/-- what `read()` can produce, entered before teardown:
+    in the "teardown done" case it returned a falsy value; otherwise it did not. -/
+abbrev ReadPost (c : Cfg) (s : St) (x : St × R Bool) : Prop :=
+  x.2.isHalt = true ∨ Post c s x.1 x.2.exn? (x.2 = .ok false) (x.2 ≠ .ok false)
+
+theorem deliver_P (c : Cfg) (s : St) (op : Nat) (p : Bytes) (frag : Bool) (hp : s.hasDoneTeardown = false) :
+    ReadPost c s (asRead true (deliverMessage c s op p frag)) := by
+  unfold deliverMessage
+  simp only [gen_msgOpcode, gen_dataFirst, ↓reduceIte]
+  obtain ⟨m1, ⟨δ1, hc1, hcl1, her1⟩, hex1⟩ := plain_cb_spec c s .onData [dataArg op p, .int op, .bool true] (by simp) (by simp)
+  rcases hx : callback c s .onData [dataArg op p, .int op, .bool true] with ⟨s1, r1⟩
+  rw [hx] at m1 hc1 hex1
+  simp only [] at m1 hc1 hex1 ⊢
+  cases r1 with
+  | halt => left; rfl
+  | exc e =>
+    right
+    refine ⟨δ1, by simpa using hc1, ?_, Or.inl ⟨by simp [m1.hdt, hp], hcl1, by simp [asRead]⟩⟩
+    intro heo
+    refine ⟨by simp [m1.he, her1], ?_⟩
+    intro e' he'
+    simp [asRead, R.exn?] at he'
+    subst he'
+    rw [hex1 heo e rfl]; rfl
+  | ok u =>
+    cases u
+    have h1 : s1.hasDoneTeardown = false := by rw [m1.hdt]; exact hp
+    have post := post_plain c s1 .onMessage [dataArg op p] (by simp) (by simp) h1
+      ((asRead true (callback c s1 .onMessage [dataArg op p])).2 = .ok false)
+      ((asRead true (callback c s1 .onMessage [dataArg op p])).2 ≠ .ok false)
+      (by intro h; rw [asRead_ok] at h; simp at h)
+    by_cases hh : (callback c s1 .onMessage [dataArg op p]).2.isHalt = true
+    · left; simpa using hh
+    · right
+      have := Post.trans_stay (c := c) (s := s) δ1 hc1 hcl1 (fun _ => by rw [m1.he, her1]; simp) post
+      simpa using this
+
+end WS.Lemmas.App
+
+namespace WS.Lemmas.App
+open WS WS.Model.App
+
+/-- an exception raised by the layers below (never a user exception): stays before teardown -/
+theorem post_exc (c : Cfg) (s s' : St) (f : Frame s s') (e : AExn) (hu : isUser e = false)
+    (hp : s.hasDoneTeardown = false) : ReadPost c s (s', .exc e) := by
+  right
+  refine ⟨[], by simpa using f.cb, ?_, Or.inl ⟨by simp [f.hdt, hp], rfl, by simp⟩⟩
+  intro _
+  exact ⟨by simp [f.he], by intro e' he'; simp [R.exn?] at he'; subst he'; exact hu⟩
+
+theorem ReadPost.of_frame {c : Cfg} {s s0 : St} {x : St × R Bool} (f : Frame s s0) (h : ReadPost c s0 x) :
+    ReadPost c s x := by
+  rcases h with h | h
+  · exact Or.inl h
+  · exact Or.inr (Post.of_frame f h)
+
+theorem handleEv_P (c : Cfg) (hco : CloseOk c) (s : St) (ev : SrvEv) (hp : s.hasDoneTeardown = false) :
+    ReadPost c s (handleEv c s ev) := by
+  cases ev with
+  | part => left; rfl
+  | message op p frag => exact deliver_P c s op p frag hp
+  | ping p =>
+    simp only [handleEv]
+    have f3 : Frame s (if s.writable then s.emit (.wrote Gen.opcodePong p) else s) := by
+      split
+      · exact frame_emit _ _ (by intros; simp)
+      · exact Frame.refl s
+    generalize (if s.writable then s.emit (.wrote Gen.opcodePong p) else s) = s3 at f3 ⊢
+    have h3 : s3.hasDoneTeardown = false := by rw [f3.hdt]; exact hp
+    have post := post_plain c s3 .onPing [.bytes p] (by simp) (by simp) h3
+      ((asRead true (callback c s3 .onPing [.bytes p])).2 = .ok false)
+      ((asRead true (callback c s3 .onPing [.bytes p])).2 ≠ .ok false)
+      (by intro h; rw [asRead_ok] at h; simp at h)
+    by_cases hh : (callback c s3 .onPing [.bytes p]).2.isHalt = true
+    · left; simpa using hh
+    · right; exact Post.of_frame f3 (by simpa using post)
+  | pong p =>
+    simp only [handleEv]
+    have f3 : Frame s { s with lastPong := s.now } := by constructor <;> simp_all [cbs]
+    generalize ({ s with lastPong := s.now } : St) = s3 at f3 ⊢
+    have h3 : s3.hasDoneTeardown = false := by rw [f3.hdt]; exact hp
+    have post := post_plain c s3 .onPong [.bytes p] (by simp) (by simp) h3
+      ((asRead true (callback c s3 .onPong [.bytes p])).2 = .ok false)
+      ((asRead true (callback c s3 .onPong [.bytes p])).2 ≠ .ok false)
+      (by intro h; rw [asRead_ok] at h; simp at h)
+    by_cases hh : (callback c s3 .onPong [.bytes p]).2.isHalt = true
+    · left; simpa using hh
+    · right; exact Post.of_frame f3 (by simpa using post)
+  | close body =>
+    simp only [handleEv, gen_closeToTeardown, ↓reduceIte]
+    have f3 : Frame s { s with sock := s.sock.map fun (w : WSock) => { w with connected := false } } := by
+      constructor <;> simp_all [cbs]
+    generalize ({ s with sock := s.sock.map fun (w : WSock) => { w with connected := false } } : St) = s3 at f3 ⊢
+    have f4 : Frame s3 (if s3.writable then s3.emit (.wrote Gen.opcodeClose (beN 2 Gen.statusNormal)) else s3) := by
+      split
+      · exact frame_emit _ _ (by intros; simp)
+      · exact Frame.refl s3
+    generalize (if s3.writable then s3.emit (.wrote Gen.opcodeClose (beN 2 Gen.statusNormal)) else s3) = s4 at f4 ⊢
+    have h4 : s4.hasDoneTeardown = false := by rw [f4.hdt, f3.hdt]; exact hp
+    rcases teardown_P c hco s4 (some body) h4 with td | ⟨q, rok, hhe, a, hca⟩
+    · left; simpa using td
+    · right
+      refine Post.of_frame (f3.trans f4) ⟨onCloseEv c a, by simpa using hca, ?_, Or.inr ⟨by simpa using q, ⟨[], a, rfl, rfl⟩, ?_⟩⟩
+      · intro _
+        exact ⟨by simp [hhe, errsIn_onCloseEv], by rw [asRead_exn, rok]; simp [R.exn?]⟩
+      · rw [asRead_ok]; exact ⟨rok, rfl⟩
+  | eof => exact post_exc c s _ (frame_closeTransport s) .closed rfl hp
+  | reset => exact post_exc c s _ (by constructor <;> simp_all [cbs]) .transport rfl hp
+  | protoError => exact post_exc c s _ (Frame.refl s) .proto rfl hp
+  | payloadError => exact post_exc c s _ (Frame.refl s) .payload rfl hp
+
+theorem readEvents_P (c : Cfg) (hco : CloseOk c) : ∀ (evs : List TEv) (s : St), s.hasDoneTeardown = false →
+    ReadPost c s (readEvents c evs s) := by
+  intro evs
+  induction evs with
+  | nil =>
+    intro s hp
+    left
+    simp [readEvents, R.isHalt]
+  | cons e rest ih =>
+    intro s hp
+    rw [readEvents]
+    simp only []
+    -- the wait for the arrival
+    have fw : Frame s (if s.arr + e.dt ≤ s.now then (s, true) else waitUntil c s (s.arr + e.dt)).1 := by
+      split
+      · exact Frame.refl s
+      · exact frame_waitUntil c s _
+    rcases hw : (if s.arr + e.dt ≤ s.now then (s, true) else waitUntil c s (s.arr + e.dt)) with ⟨s1, ok⟩
+    rw [hw] at fw
+    simp only [] at fw ⊢
+    cases ok with
+    | false => left; rfl
+    | true =>
+      simp only [Bool.not_true, Bool.false_eq_true, ↓reduceIte]
+      have f2 : Frame s { s1 with evs := rest, arr := s.arr + e.dt } :=
+        fw.trans (by constructor <;> simp_all [cbs])
+      have h2 : ({ s1 with evs := rest, arr := s.arr + e.dt } : St).hasDoneTeardown = false := by
+        rw [f2.hdt]; exact hp
+      split
+      · exact (ih _ h2).of_frame f2
+      · exact (handleEv_P c hco _ _ h2).of_frame f2
+
+theorem read_P (c : Cfg) (hco : CloseOk c) (s : St) (hp : s.hasDoneTeardown = false) :
+    ReadPost c s (Model.App.read c s) := by
+  unfold Model.App.read
+  split
+  · rcases teardown_P c hco s none hp with td | ⟨q, rok, hhe, a, hca⟩
+    · left; simpa using td
+    · right
+      refine ⟨onCloseEv c a, by simpa using hca, ?_, Or.inr ⟨by simpa using q, ⟨[], a, rfl, rfl⟩, ?_⟩⟩
+      · intro _
+        exact ⟨by simp [hhe, errsIn_onCloseEv], by rw [asRead_exn, rok]; simp [R.exn?]⟩
+      · rw [asRead_ok]; exact ⟨rok, rfl⟩
+  · split
+    · exact post_exc c s s (Frame.refl s) .attrError rfl hp
+    · exact readEvents_P c hco s.evs s hp
+
+end WS.Lemmas.App
+
+namespace WS.Lemmas.App
+open WS WS.Model.App
+
+/-- what the dispatcher loop can produce, entered before teardown: when it returns normally the loop
+    condition is off (`keep_running = False`), with or without teardown having happened -/
+abbrev LoopPost (c : Cfg) (s : St) (x : St × R Unit) : Prop :=
+  x.2.isHalt = true ∨ Post c s x.1 x.2.exn? (x.2 = .ok ()) (x.2 = .ok () → x.1.keepRunning = false)
+
+theorem LoopPost.of_frame {c : Cfg} {s s0 : St} {x : St × R Unit} (f : Frame s s0) (h : LoopPost c s0 x) :
+    LoopPost c s x := by
+  rcases h with h | h
+  · exact Or.inl h
+  · exact Or.inr (Post.of_frame f h)
+
+theorem afterRead_P (c : Cfg) (k : St → St × R Unit) (s : St) (x : St × R Bool) (hx : ReadPost c s x)
+    (hk : ∀ s1, s1.hasDoneTeardown = false → LoopPost c s1 (k s1)) : LoopPost c s (afterRead c k x) := by
+  rcases x with ⟨s', r⟩
+  rcases hx with hh | ⟨δ, hc, hl, ho⟩
+  · left; cases r <;> simp_all [R.isHalt, afterRead]
+  · simp only [] at hc hl ho
+    cases r with
+    | halt => left; rfl
+    | exc e =>
+      right
+      refine ⟨δ, hc, fun heo => ⟨(hl heo).1, by simpa [afterRead, R.exn?] using (hl heo).2⟩, ?_⟩
+      rcases ho with ⟨a, b, _⟩ | ⟨_, _, d⟩
+      · exact Or.inl ⟨a, b, by simp [afterRead]⟩
+      · cases d
+    | ok b =>
+      cases b with
+      | false =>
+        right
+        refine ⟨δ, hc, fun heo => ⟨(hl heo).1, by simp [afterRead, R.exn?]⟩, ?_⟩
+        rcases ho with ⟨_, _, d⟩ | ⟨q, dd, _⟩
+        · exact absurd rfl d
+        · exact Or.inr ⟨q, dd, rfl⟩
+      | true =>
+        rcases ho with ⟨a, b, _⟩ | ⟨_, _, d⟩
+        · simp only [afterRead]
+          split
+          · right
+            refine ⟨δ, hc, fun heo => ⟨(hl heo).1, by simp [R.exn?, isUser, Spec.AppTrace.AExn.isUser]⟩, Or.inl ⟨a, b, by simp⟩⟩
+          · rcases hk s' a with hh | post
+            · exact Or.inl hh
+            · exact Or.inr (Post.trans_stay δ hc b (fun heo => (hl heo).1) post)
+        · cases d
+
+theorem frame_select (c : Cfg) (s : St) : Frame s (select c s).1 := by
+  unfold select
+  split
+  · exact Frame.refl s
+  · split
+    · exact Frame.refl s
+    · simp only []
+      generalize hw : waitUntil c s _ = x
+      have f : Frame s x.1 := by rw [← hw]; exact frame_waitUntil c s _
+      rcases x with ⟨s1, ok⟩
+      cases ok <;> simpa using f
+
+theorem dispLoop_P (c : Cfg) (hco : CloseOk c) : ∀ (n : Nat) (s : St), s.hasDoneTeardown = false →
+    LoopPost c s (dispLoop c n s) := by
+  intro n
+  induction n with
+  | zero => intro s _; left; rfl
+  | succ m ih =>
+    intro s hp
+    rw [dispLoop]
+    split
+    · -- loop condition off
+      right
+      rename_i hk
+      refine ⟨[], by simp, fun _ => ⟨by simp, by simp [R.exn?]⟩, Or.inl ⟨hp, rfl, fun _ => by simpa using hk⟩⟩
+    · split
+      · right
+        exact ⟨[], by simp, fun _ => ⟨by simp, by simp [R.exn?, isUser, Spec.AppTrace.AExn.isUser]⟩,
+          Or.inl ⟨hp, rfl, by simp⟩⟩
+      · have fs := frame_select c s
+        rcases hsel : select c s with ⟨s1, rd⟩
+        rw [hsel] at fs
+        simp only [] at fs ⊢
+        have h1 : s1.hasDoneTeardown = false := by rw [fs.hdt]; exact hp
+        cases rd with
+        | none => left; rfl
+        | some ready =>
+          simp only []
+          refine LoopPost.of_frame fs (afterRead_P c (dispLoop c m) s1 _ ?_ ih)
+          cases ready with
+          | true => simpa using read_P c hco s1 h1
+          | false =>
+            right
+            exact ⟨[], by simp, fun _ => ⟨by simp, by simp [R.exn?]⟩, Or.inl ⟨h1, rfl, by simp⟩⟩
+
+end WS.Lemmas.App
+
+namespace WS.Lemmas.App
+open WS WS.Model.App
+
+theorem Post.of_eq {c : Cfg} {s s0 s' : St} {ex : Option AExn} {st es : Prop}
+    (hcb : cbs s0 = cbs s) (hhe : s0.hasErrored = s.hasErrored) (h : Post c s0 s' ex st es) : Post c s s' ex st es := by
+  obtain ⟨δ, hc, hl, ho⟩ := h
+  exact ⟨δ, by rw [hc, hcb], fun heo => by rw [← hhe]; exact hl heo, ho⟩
+
+theorem Post.weaken {c : Cfg} {s s' : St} {ex : Option AExn} {st es st' es' : Prop}
+    (h : Post c s s' ex st es) (h1 : st → st') (h2 : es → es') : Post c s s' ex st' es' := by
+  obtain ⟨δ, hc, hl, ho⟩ := h
+  refine ⟨δ, hc, hl, ?_⟩
+  rcases ho with ⟨a, b, d⟩ | ⟨q, dd, d⟩
+  · exact Or.inl ⟨a, b, h2 d⟩
+  · exact Or.inr ⟨q, dd, h1 d⟩
+
+/-- `connect`: a dial; the bookkeeping of callbacks / teardown / errors is untouched -/
+theorem connect_spec (s : St) :
+    (connect s).1.hasDoneTeardown = s.hasDoneTeardown ∧ (connect s).1.hasErrored = s.hasErrored ∧
+    (connect s).1.keepRunning = s.keepRunning ∧ cbs (connect s).1 = cbs s ∧ (connect s).1.ping = s.ping ∧
+    (∀ e, (connect s).2 = .exc e → isUser e = false) ∧ (connect s).2.isHalt = false ∧
+    ((connect s).2 = .ok () → (connect s).1.sock.isSome = true) := by
+  unfold connect
+  cases s.dials with
+  | nil => simp [cbs, cbsOf, St.emit, R.isHalt, isUser, Spec.AppTrace.AExn.isUser]
+  | cons d ds =>
+    cases d <;> simp [cbs, cbsOf, St.emit, R.isHalt, isUser, Spec.AppTrace.AExn.isUser]
+
+theorem startPing_spec (c : Cfg) (s : St) :
+    (startPing c s).hasDoneTeardown = s.hasDoneTeardown ∧ (startPing c s).hasErrored = s.hasErrored ∧
+    (startPing c s).keepRunning = s.keepRunning ∧ cbs (startPing c s) = cbs s ∧ (startPing c s).sock = s.sock := by
+  simp [startPing, cbs, cbsOf, St.emit]
+
+/-- what `setSock` can produce, entered before teardown -/
+abbrev SockPost (c : Cfg) (s : St) (x : St × R Unit) : Prop :=
+  x.2.isHalt = true ∨
+  Post c s x.1 x.2.exn? True (x.2 = .ok () → x.1.keepRunning = true → x.1.hasErrored = true)
+
+theorem hd_to_sock {c : Cfg} {s : St} {x : St × R Unit}
+    (h : x.2.isHalt = true ∨ Post c s x.1 x.2.exn? True (x.1.hasErrored = true)) : SockPost c s x := by
+  rcases h with h | h
+  · exact Or.inl h
+  · exact Or.inr (h.weaken id (fun he _ _ => he))
+
+theorem setSock_P (c : Cfg) (hco : CloseOk c) (s : St) (rc : Bool) (hp : s.hasDoneTeardown = false)
+    (hpre : ErrOk c → rc = true → s.hasErrored = true) : SockPost c s (setSock c s rc) := by
+  unfold setSock
+  simp only []
+  -- release of the previous transport
+  have f0 : Frame s (if rc then (match s.sock with | some _ => closeTransport s | none => s) else s) := by
+    split
+    · split
+      · exact frame_closeTransport s
+      · exact Frame.refl s
+    · exact Frame.refl s
+  generalize (if rc then (match s.sock with | some _ => closeTransport s | none => s) else s) = s0 at f0 ⊢
+  obtain ⟨k1, k2, k3, k4, k5, k6, k7, k8⟩ := connect_spec s0
+  rcases hcn : connect s0 with ⟨s1, r1⟩
+  rw [hcn] at k1 k2 k3 k4 k5 k6 k7 k8
+  simp only [] at k1 k2 k3 k4 k5 k6 k7 k8 ⊢
+  have h1 : s1.hasDoneTeardown = false := by rw [k1, f0.hdt]; exact hp
+  have hcb1 : cbs s1 = cbs s := by rw [k4, f0.cb]
+  have hhe1 : s1.hasErrored = s.hasErrored := by rw [k2, f0.he]
+  -- handleDisconnect from a state that differs from s by callback events δ (no on_close, errors linked)
+  have viaHD : ∀ (s2 : St) (e : AExn) (δ : List (Cb × List Arg)), s2.hasDoneTeardown = false →
+      cbs s2 = cbs s ++ δ → closesIn δ = 0 → (ErrOk c → s2.hasErrored = (s.hasErrored || errsIn δ)) →
+      (ErrOk c → isUser e = false) → SockPost c s (handleDisconnect c s2 e rc) := by
+    intro s2 e δ h2 hc2 hcl2 hl2 hu
+    have := handleDisconnect_P c hco s2 e rc h2 (fun heo => ⟨fun hr => by
+      rw [hl2 heo, hpre heo hr]; simp, hu heo⟩)
+    rcases hd_to_sock this with hh | post
+    · exact Or.inl hh
+    · exact Or.inr (Post.trans_stay δ hc2 hcl2 hl2 post)
+  cases r1 with
+  | halt => simp [R.isHalt] at k7
+  | exc e =>
+    simp only []
+    exact viaHD s1 e [] h1 (by simpa using hcb1) rfl (fun _ => by simpa using hhe1) (fun _ => k6 e rfl)
+  | ok u =>
+    cases u
+    simp only []
+    obtain ⟨p1, p2, p3, p4, p5⟩ := startPing_spec c s1
+    have f2h : (if c.iv ≠ 0 then startPing c s1 else s1).hasDoneTeardown = false := by
+      split
+      · rw [p1]; exact h1
+      · exact h1
+    have f2c : cbs (if c.iv ≠ 0 then startPing c s1 else s1) = cbs s := by
+      split
+      · rw [p4]; exact hcb1
+      · exact hcb1
+    have f2e : (if c.iv ≠ 0 then startPing c s1 else s1).hasErrored = s.hasErrored := by
+      split
+      · rw [p2]; exact hhe1
+      · exact hhe1
+    generalize (if c.iv ≠ 0 then startPing c s1 else s1) = s2 at f2h f2c f2e ⊢
+    have hne : (if (rc && c.has Cb.onReconnect) = true then Cb.onReconnect else Cb.onOpen) ≠ .onClose ∧
+        (if (rc && c.has Cb.onReconnect) = true then Cb.onReconnect else Cb.onOpen) ≠ .onError := by
+      split <;> simp
+    generalize (if (rc && c.has Cb.onReconnect) = true then Cb.onReconnect else Cb.onOpen) = cb0 at hne ⊢
+    obtain ⟨m3, ⟨δ3, hc3, hcl3, her3⟩, hex3⟩ := plain_cb_spec c s2 cb0 [] hne.1 hne.2
+    rcases hx : callback c s2 cb0 [] with ⟨s3, r3⟩
+    rw [hx] at m3 hc3 hex3
+    simp only [] at m3 hc3 hex3 ⊢
+    have h3 : s3.hasDoneTeardown = false := by rw [m3.hdt]; exact f2h
+    have hc3' : cbs s3 = cbs s ++ δ3 := by rw [hc3, f2c]
+    have hl3 : ErrOk c → s3.hasErrored = (s.hasErrored || errsIn δ3) := fun _ => by rw [m3.he, f2e, her3]; simp
+    cases r3 with
+    | halt => left; rfl
+    | exc e => exact viaHD s3 e δ3 h3 hc3' hcl3 hl3 (fun heo => by rw [hex3 heo e rfl]; rfl)
+    | ok u =>
+      cases u
+      simp only []
+      cases hs3 : s3.sock with
+      | none => exact viaHD s3 .attrError δ3 h3 hc3' hcl3 hl3 (fun _ => rfl)
+      | some w =>
+        simp only []
+        rcases dispLoop_P c hco c.fuel s3 h3 with hh | post
+        · left
+          rcases hd : dispLoop c c.fuel s3 with ⟨s4, r4⟩
+          rw [hd] at hh
+          cases r4 with
+          | halt => rfl
+          | ok u => simp [R.isHalt] at hh
+          | exc e => simp [R.isHalt] at hh
+        · rcases hd : dispLoop c c.fuel s3 with ⟨s4, r4⟩
+          rw [hd] at post
+          simp only [] at post ⊢
+          cases r4 with
+          | halt => left; rfl
+          | ok u =>
+            cases u
+            right
+            exact Post.trans_stay δ3 hc3' hcl3 hl3
+              (post.weaken (fun _ => trivial) (fun h hk hkr => by rw [h hk] at hkr; cases hkr))
+          | exc e =>
+            obtain ⟨δ4, hc4, hl4, ho4⟩ := post
+            rcases ho4 with ⟨a4, b4, _⟩ | ⟨_, _, d⟩
+            · exact viaHD s4 e (δ3 ++ δ4) a4 (by rw [hc4, hc3', List.append_assoc])
+                (by rw [closesIn_append, hcl3, b4])
+                (fun heo => by rw [(hl4 heo).1, hl3 heo, errsIn_append, Bool.or_assoc])
+                (fun heo => (hl4 heo).2 e rfl)
+            · cases d
+
+end WS.Lemmas.App
+
+namespace WS.Lemmas.App
+open WS WS.Model.App
+
+abbrev RLPost (c : Cfg) (s : St) (x : St × R Unit) : Prop :=
+  x.2.isHalt = true ∨ Post c s x.1 x.2.exn? True True
+
+theorem reconnectLoop_Q (c : Cfg) (n : Nat) (s : St) (h : s.keepRunning = false) :
+    reconnectLoop c (n + 1) s = (s, .ok ()) := by
+  rw [reconnectLoop]; simp [h]
+
+theorem reconnectLoop_P (c : Cfg) (hco : CloseOk c) : ∀ (n : Nat) (s : St), s.hasDoneTeardown = false →
+    (ErrOk c → s.keepRunning = true → s.hasErrored = true) → RLPost c s (reconnectLoop c n s) := by
+  intro n
+  induction n with
+  | zero => intro s _ _; left; rfl
+  | succ m ih =>
+    intro s hp hpre
+    rw [reconnectLoop]
+    by_cases hk : s.keepRunning = true
+    · simp only [hk, Bool.not_true, Bool.false_eq_true, ↓reduceIte]
+      have f1 := frame_emit s (.sleep c.reconnect) (by intros; simp)
+      have f2 := frame_waitUntil c (s.emit (.sleep c.reconnect)) ((s.emit (.sleep c.reconnect)).now + c.reconnect)
+      rcases hw : waitUntil c (s.emit (.sleep c.reconnect)) ((s.emit (.sleep c.reconnect)).now + c.reconnect) with ⟨s2, ok⟩
+      rw [hw] at f2
+      try simp only [] at f2 ⊢
+      cases ok with
+      | false => left; rfl
+      | true =>
+        simp only [Bool.not_true, Bool.false_eq_true, ↓reduceIte]
+        have f := f1.trans f2
+        have h2 : s2.hasDoneTeardown = false := by rw [f.hdt]; exact hp
+        have sp := setSock_P c hco s2 true h2 (fun heo _ => by rw [f.he]; exact hpre heo hk)
+        rcases hss : setSock c s2 true with ⟨s3, r3⟩
+        rw [hss] at sp
+        try simp only [] at sp ⊢
+        rcases sp with hh | post
+        · left
+          cases r3 with
+          | halt => rfl
+          | ok u => simp [R.isHalt] at hh
+          | exc e => simp [R.isHalt] at hh
+        · cases r3 with
+          | halt => left; rfl
+          | exc e => right; exact Post.of_frame f (post.weaken id (fun _ => trivial))
+          | ok u =>
+            cases u
+            try simp only []
+            obtain ⟨δ, hc, hl, ho⟩ := post
+            rcases ho with ⟨a, b, d⟩ | ⟨q, dd, _⟩
+            · -- still before teardown: next round
+              rcases ih s3 a (fun heo hk3 => d rfl hk3) with hh | post2
+              · exact Or.inl hh
+              · exact Or.inr (Post.of_frame f (Post.trans_stay δ hc b (fun heo => (hl heo).1) post2))
+            · -- teardown done inside setSock: the loop condition is off
+              cases m with
+              | zero => left; rfl
+              | succ k =>
+                rw [reconnectLoop_Q c k s3 q.kr]
+                right
+                exact Post.of_frame f ⟨δ, hc, fun heo => ⟨(hl heo).1, by simp [R.exn?]⟩, Or.inr ⟨q, dd, trivial⟩⟩
+    · simp only [hk, Bool.not_false, ↓reduceIte]
+      right
+      exact ⟨[], by simp, fun _ => ⟨by simp, by simp [R.exn?]⟩, Or.inl ⟨hp, rfl, trivial⟩⟩
+
+theorem firstStage_P (c : Cfg) (hco : CloseOk c) (s : St) (hp : s.hasDoneTeardown = false) :
+    RLPost c s (firstStage c s) := by
+  unfold firstStage
+  have sp := setSock_P c hco s false hp (fun _ h => by cases h)
+  rcases hss : setSock c s false with ⟨s1, r1⟩
+  rw [hss] at sp
+  try simp only [] at sp ⊢
+  rcases sp with hh | post
+  · left
+    cases r1 with
+    | halt => rfl
+    | ok u => simp [R.isHalt] at hh
+    | exc e => simp [R.isHalt] at hh
+  · cases r1 with
+    | halt => left; rfl
+    | exc e => right; exact post.weaken id (fun _ => trivial)
+    | ok u =>
+      cases u
+      try simp only []
+      split
+      · obtain ⟨δ, hc, hl, ho⟩ := post
+        rcases ho with ⟨a, b, d⟩ | ⟨q, dd, _⟩
+        · rcases reconnectLoop_P c hco c.fuel s1 a (fun heo hk => d rfl hk) with hh | post2
+          · exact Or.inl hh
+          · exact Or.inr (Post.trans_stay δ hc b (fun heo => (hl heo).1) post2)
+        · cases hf : c.fuel with
+          | zero => left; rfl
+          | succ k =>
+            rw [reconnectLoop_Q c k s1 q.kr]
+            right
+            exact ⟨δ, hc, fun heo => ⟨(hl heo).1, by simp [R.exn?]⟩, Or.inr ⟨q, dd, trivial⟩⟩
+      · right; exact post.weaken id (fun _ => trivial)
+
+/-- **the whole body of run_forever** (try / except / finally), entered with `has_done_teardown = False`:
+    unless the model is cut, it ends after teardown (`Qst`), having appended callback events
+    `δ1 ++ [on_close …]` with no on_close in `δ1`, and `has_errored` says whether `δ1` holds an error report. -/
+theorem runBody_spec (c : Cfg) (hco : CloseOk c) (s : St) (hp : s.hasDoneTeardown = false)
+    (hpre : ErrOk c → s.hasErrored = false) :
+    (runBody c s).2.isHalt = true ∨
+    (Qst (runBody c s).1 ∧ (runBody c s).2 = .ok () ∧
+      ∃ δ1 a, cbs (runBody c s).1 = cbs s ++ δ1 ++ onCloseEv c a ∧ closesIn δ1 = 0 ∧
+        (ErrOk c → (runBody c s).1.hasErrored = errsIn δ1)) := by
+  unfold runBody
+  have stage := firstStage_P c hco s hp
+  rcases hfs : firstStage c s with ⟨s1, r1⟩
+  rw [hfs] at stage
+  try simp only [] at stage
+  unfold afterBody
+  simp only [gen_finally, ↓reduceIte]
+  rcases stage with hh | ⟨δ, hc, hl, ho⟩
+  · left
+    cases r1 with
+    | halt => rfl
+    | ok u => simp [R.isHalt] at hh
+    | exc e => simp [R.isHalt] at hh
+  · -- teardown (in the except clause and/or in finally)
+    have fin : (teardown c s1 none).2.isHalt = true ∨
+        (Qst (teardown c s1 none).1 ∧ (teardown c s1 none).2 = .ok () ∧
+          ∃ δ1 a, cbs (teardown c s1 none).1 = cbs s ++ δ1 ++ onCloseEv c a ∧ closesIn δ1 = 0 ∧
+            (ErrOk c → (teardown c s1 none).1.hasErrored = errsIn δ1)) := by
+      rcases ho with ⟨a, b, _⟩ | ⟨q, ⟨δ1, ar, he, hcl⟩, _⟩
+      · rcases teardown_P c hco s1 none a with td | ⟨q, rok, hhe, ar, hca⟩
+        · exact Or.inl td
+        · right
+          refine ⟨q, rok, δ, ar, by rw [hca, hc], b, fun heo => ?_⟩
+          rw [hhe, (hl heo).1, hpre heo]; simp
+      · right
+        rw [teardown_Q c s1 none q.hdt]
+        refine ⟨q, rfl, δ1, ar, by rw [hc, he, List.append_assoc], hcl, fun heo => ?_⟩
+        rw [(hl heo).1, hpre heo, he]; simp [errsIn_onCloseEv]
+    cases r1 with
+    | halt => left; rfl
+    | ok u => cases u; exact fin
+    | exc e =>
+      try simp only []
+      rcases fin with td | ⟨q, rok, rest⟩
+      · left
+        rcases hx : teardown c s1 none with ⟨s2, r2⟩
+        rw [hx] at td
+        cases r2 with
+        | halt => rfl
+        | ok u => simp [R.isHalt] at td
+        | exc e => simp [R.isHalt] at td
+      · right
+        rcases hx : teardown c s1 none with ⟨s2, r2⟩
+        rw [hx] at q rok rest
+        try simp only [] at q rok rest
+        subst rok
+        try simp only []
+        rw [teardown_Q c s2 none q.hdt]
+        exact ⟨q, rfl, rest⟩
 
 end WS.Lemmas.App
